@@ -11,7 +11,7 @@ RULE = ("per set: (a) hash-consistent near-misses built by the MODEL with the se
         "but otherwise consistent hint sections derived from valid signatures: two indices swapped, index repeated, non-zero "
         "padding, counter decreased, counter > omega (all rejected), (c) random byte strings, the repo's KAT verify vectors. The "
         "model is the judge, the implementation must answer the same; the near-miss verdicts are also asserted directly. "
-        "distinct_nontrivial = distinct verify requests on forged or manipulated signatures.")
+        "distinct_nontrivial = distinct verify requests on forged or manipulated signatures. The degenerate key s1 = s2 = 0 (signatures without any hint: must be accepted); every row's counter lowered below the running total; a row ending at position 255 re-ordered.")
 EXPLANATION = ('Props/C03.lean: verify_iff_spec - verify returns true exactly when VerifyFips.IsAccepted (FIPS 204 Alg. 8 / Dilithium 3.1 Verify as a relation over specification-level objects) holds, for every byte string; strict hint decoding and decoders = inverses of the encoders are theorems. The tie compares model and code on model-forged near-misses, non-canonical encodings, other-signer signatures and vectors; the model is the judge.')
 ASSUMPTIONS = ["the verdict of the specification is taken from the Lean model of verify (anchored on the NIST vectors), plus directly asserted verdicts for forged cases"]
 _st = {"cases": []}
